@@ -220,3 +220,41 @@ func VH_C16_local_columns() {
 	}
 	verifReach("end")
 }
+
+// Quoted tokens with escapes, comments-free but odd spellings: frame check
+// (C20: the front end keeps no state between calls) and determinism.
+//verif:prop C16,C20
+//verif:bounds 8 statements with quoted/bracketed/backticked identifiers incl. doubled quotes and string literals with '' escapes; each parsed twice with another statement in between
+func VH_C16_quoted() {
+	texts := [...]string{
+		`CREATE TABLE "a""b" ("c""d" TEXT DEFAULT 'it''s', [e f] INT, ` + "`g``h`" + ` BLOB)`,
+		`CREATE INDEX "i""x" ON "a""b" ("c""d" COLLATE nocase DESC, [e f])`,
+		`CREATE TABLE t (a DEFAULT '', b DEFAULT '''', c DEFAULT 'x''''y')`,
+		`SELECT "a""b", [c d] FROM "t""u"`,
+		`CREATE TABLE t ("" TEXT, "a" INT)`,
+		`CREATE TABLE t (a TEXT DEFAULT 'unterminated`,
+		`CREATE TABLE t ("unterminated TEXT)`,
+		`CREATE TABLE t (a, b, PRIMARY KEY ("a""", b))`,
+	}
+	k := verifChoice(len(texts))
+	st1, err1 := Parse(texts[k])
+	_, _ = Parse(texts[(k+1)%len(texts)])
+	st2, err2 := Parse(texts[k])
+	verifAssert((err1 == nil) == (err2 == nil), "same verdict on the second parse")
+	if ct1, ok := st1.(CreateTableStmt); ok {
+		ct2, ok2 := st2.(CreateTableStmt)
+		verifAssert(ok2 && ct1.Table == ct2.Table && len(ct1.Columns) == len(ct2.Columns), "same statement on the second parse")
+		if ok2 && len(ct1.Columns) == len(ct2.Columns) {
+			for i := range ct1.Columns {
+				verifAssert(ct1.Columns[i].Name == ct2.Columns[i].Name, "same column names on the second parse")
+			}
+		}
+	}
+	if k == 0 && err1 == nil {
+		ct := st1.(CreateTableStmt)
+		verifAssert(ct.Table == `a"b` && len(ct.Columns) == 3 && ct.Columns[0].Name == `c"d` && ct.Columns[1].Name == "e f" && ct.Columns[2].Name == "g`h", "doubled quotes are unescaped")
+		d, _ := ct.Columns[0].Default.(string)
+		verifAssert(d == "it's", "'' in a literal is one quote")
+	}
+	verifReach("end")
+}
